@@ -10,6 +10,7 @@ from pymtl3.passes.backends.verilog.translation.behavioral.VBehavioralTranslator
     VBehavioralTranslatorL2,
 )
 from pymtl3.passes.backends.verilog.util.utility import make_indent
+from pymtl3.passes.rtlir import BehavioralRTLIR as bir
 
 from .YosysBehavioralTranslatorL1 import (
     YosysBehavioralRTLIRToVVisitorL1,
@@ -56,6 +57,12 @@ class YosysBehavioralRTLIRToVVisitorL2(
     loop_var = s.visit( node.var )
     start    = s.visit( node.start )
     end      = s.visit( node.end )
+    # The bounds are operands of the comparisons below: an operation
+    # ( range( N & M ) ) keeps its own parentheses
+    if isinstance( node.start, ( bir.BinOp, bir.IfExp, bir.Compare ) ):
+      start = f"( {start} )"
+    if isinstance( node.end, ( bir.BinOp, bir.IfExp, bir.Compare ) ):
+      end = f"( {end} )"
 
     loop_var = "__loopvar__" + s.blk.__name__ + "_" + loop_var
     if loop_var not in s.loopvars:
